@@ -118,6 +118,19 @@ func cmdCheck(args []string) int {
 		return checkSweep(*prop, *tier, *repo, cs, seed, *out, *noEvidence, t0)
 	}
 	r := runProperty(*prop, *tier, *repo, cs, timeout, *verbose)
+	if *prop == "C18" {
+		lobs, lerrs := runLayout(*repo, cs, filepath.Join(verifDir, "layout_manifest.json"), false)
+		for _, l := range lobs {
+			o := &Obligation{Name: l.Name, Kind: "layout", Tags: []string{"C18"}, Text: l.Detail, Status: "unsat", Solver: "gocv-layout (go/types offsets vs assembly text)"}
+			if !l.OK {
+				o.Status = "sat"
+				o.Output = l.Detail
+			}
+			r.obls = append(r.obls, o)
+			r.layout++
+		}
+		r.genErrors = append(r.genErrors, lerrs...)
+	}
 	r.wall = time.Since(t0).Seconds()
 	code := r.report(*prop, *tier, seed, *out, *noEvidence)
 	return code
@@ -137,6 +150,7 @@ type propRun struct {
 	extraObls  []*Obligation
 	tier       string
 	cachedDup  int
+	layout     int
 }
 
 func runProperty(prop, tier, repo string, cs *Contracts, timeout int, verbose bool) *propRun {
@@ -373,6 +387,8 @@ func (r *propRun) report(prop, tier string, seed int, evPath string, noEvidence 
 		suffix := " no-failing-input-found"
 		if o.Vacuity {
 			rep["explanation"] = "vacuity guard: the function's exit is unreachable under its assumptions (contradictory requires/assumed contracts)"
+		} else if o.Kind == "layout" {
+			rep["explanation"] = o.Text
 		} else if o.Status == "sat" {
 			m := modelFor(o, 20)
 			rep["model"] = truncate(m, 60000)
@@ -426,7 +442,11 @@ func (r *propRun) report(prop, tier string, seed int, evPath string, noEvidence 
 		if !isTagged {
 			continue
 		}
-		samples = append(samples, map[string]interface{}{"obligation": o.Name, "clause": o.Text, "status": o.Status, "solver": o.Solver, "time_s": round3(o.Time), "query_hash": o.QueryHash()})
+		qh := ""
+		if o.ex != nil {
+			qh = o.QueryHash()
+		}
+		samples = append(samples, map[string]interface{}{"obligation": o.Name, "clause": o.Text, "status": o.Status, "solver": o.Solver, "time_s": round3(o.Time), "query_hash": qh})
 		cnt++
 		if cnt >= 6 {
 			break
@@ -444,7 +464,11 @@ func (r *propRun) report(prop, tier string, seed int, evPath string, noEvidence 
 	}
 	sort.Strings(r.notes)
 	level := "proof"
+	if prop == "C18" {
+		level = "other"
+	}
 	cov := map[string]interface{}{
+		"layout_obligations": r.layout,
 		"obligations":              total,
 		"discharged":               discharged,
 		"obligations_tagged":       tagged,
